@@ -392,9 +392,15 @@ impl UpdateHandle {
         let mut path_proof_offset = 0;
         let mut witnessed_start = 0;
 
+        // Workers finish in arbitrary order, but the witnessed batches are indexed cumulatively
+        // over the sorted `read_write` vector. Gather all outputs and consume them in shard order.
+        let mut outputs = Vec::with_capacity(self.num_workers);
         for _ in 0..self.num_workers {
-            let output = join_task(&self.worker_rx)?;
+            outputs.push(join_task(&self.worker_rx)?);
+        }
+        outputs.sort_by_key(|output| output.shard_index);
 
+        for output in outputs {
             if let Some(root) = output.root {
                 assert!(new_root.is_none());
                 new_root = Some(root);
@@ -492,14 +498,17 @@ enum RootPagePending {
 }
 
 struct WorkerOutput {
+    // The index of the shard this worker was responsible for.
+    shard_index: usize,
     root: Option<Node>,
     witnessed_paths: Option<Vec<(WitnessedPath, Option<trie::LeafData>, usize)>>,
     updated_pages: Vec<UpdatedPage>,
 }
 
 impl WorkerOutput {
-    fn new(witness: bool) -> Self {
+    fn new(witness: bool, shard_index: usize) -> Self {
         WorkerOutput {
+            shard_index,
             root: None,
             witnessed_paths: if witness { Some(Vec::new()) } else { None },
             updated_pages: Vec::new(),
